@@ -238,3 +238,43 @@ Definition listed_literal (m : matrix) : Prop := Forall (fun n => literal n = tr
 (* a glob pattern hits a reference x iff x is the name of a LISTED ECU the pattern matches *)
 Definition glob_hit (pat : name) (m : matrix) (x : name) : bool :=
   glob_match pat x && mem x (listed m).
+
+(* ================= patterns with character classes (appended; nothing above changes) =================
+   del_ecu / add_signal_receiver / del_signal_receiver select by fnmatch.fnmatchcase, whose pattern language also has
+   `[seq]` / `[!seq]`.  The selection enters the operations only as a predicate on names, so they are restated over an
+   arbitrary predicate; step_cls instantiates it with glob_match_cls (Glob.v).  del_ecu_glob pat = del_ecu_by (glob_match pat)
+   and sig_recv_op g gf gs = sig_recv_by g (glob_match gf) (glob_match gs) by definition. *)
+Definition del_ecu_by (p : name -> bool) (m : matrix) : matrix :=
+  fold_left (fun m e => del_one e m) (filter (fun e => p (ename e)) (ecus m)) m.
+Definition sig_recv_by (g : list name -> list name) (pf ps : name -> bool) (m : matrix) : matrix :=
+  mkMatrix (ecus m)
+           (map (fun f =>
+                   if pf (fname f)
+                   then update_receiver
+                          (mkFrame (fname f) (transmitters f) (receivers f)
+                                   (map (fun s => if ps (sname s) then set_sreceivers s (g (sreceivers s)) else s)
+                                        (signals f))
+                                   (fpay f))
+                   else f)
+                (frames m))
+           (free m).
+(* a predicate hits a reference x iff x is the name of a LISTED ECU it accepts *)
+Definition hit_by (p : name -> bool) (m : matrix) (x : name) : bool := p x && mem x (listed m).
+
+(* one operation, patterns read with character classes (delete_obsolete_ecus hands ECU NAMES to del_ecu: names
+   containing `[` stay outside the model) *)
+Definition step_cls (m : matrix) (o : op) : matrix :=
+  match o with
+  | DelGlob pat => del_ecu_by (glob_match_cls pat) m
+  | AddSigRecv gf gs n => sig_recv_by (add_name n) (glob_match_cls gf) (glob_match_cls gs) m
+  | DelSigRecv gf gs n => sig_recv_by (del_name n) (glob_match_cls gf) (glob_match_cls gs) m
+  | _ => step m o
+  end.
+Definition run_ops_cls (m : matrix) (ops : list op) : matrix := fold_left step_cls ops m.
+Definition op_no_bracket (o : op) : bool :=
+  match o with
+  | DelGlob pat => no_bracket pat
+  | AddSigRecv gf gs _ => no_bracket gf && no_bracket gs
+  | DelSigRecv gf gs _ => no_bracket gf && no_bracket gs
+  | _ => true
+  end.
